@@ -131,7 +131,9 @@ impl<'a> Scanner<'a> {
                 let prefix = format!("{}:{}: ", filename.display(), line_number + 1);
                 msg.push_str(&prefix);
 
-                let mut context = unsafe { std::str::from_utf8_unchecked(line) };
+                // Slice bytes, not chars: the cut points may fall inside a
+                // multi-byte character, and the input may not be UTF-8 at all.
+                let mut context = line;
                 let mut col = err.ofs - ofs;
                 if col > 40 {
                     // Trim beginning of line to fit it on screen.
@@ -141,10 +143,10 @@ impl<'a> Scanner<'a> {
                 }
                 if context.len() > 40 {
                     context = &context[0..40];
-                    msg.push_str(context);
+                    msg.push_str(&String::from_utf8_lossy(context));
                     msg.push_str("...");
                 } else {
-                    msg.push_str(context);
+                    msg.push_str(&String::from_utf8_lossy(context));
                 }
                 msg.push('\n');
 
